@@ -746,9 +746,7 @@ def lazy_part(chk, efs, cases, impl, state_of, run, drv):
                 chk.violation({"kind": "property-fails-on-implementation", "part": "files-lazy", "what": "object fetched on its own: a %s is not decrypted to "
                                "the plaintext" % leaf_class(ef, l), "case": describe(ef, role, pw), "leaf": k, "leaf_kind": l["kind"], "iso_method": l.get("method"),
                                "implementation": (got or "absent")[:200], "plaintext": want[:200], "model": mo[:200]}, signature=sig)
-            # (leaves of the /CFM /None and /Crypt-defaults classes are excluded from the tie: there the library also resets cf_stream /
-            # cf_string while reading, which the model states per leaf only)
-            if (got or "absent") != mgot and not (got or "").startswith("!") and not leaf_signature(ef, l):
+            if (got or "absent") != mgot and not (got or "").startswith("!"):
                 tie.append((describe(ef, role, pw), k, l["kind"], (got or "absent")[:120], mo[:160]))
     if tie:
         t = tie[0]
